@@ -88,6 +88,25 @@ func genRun(c *common.Corpus, seed uint64, cold bool, syncHeavy bool) (*simrt.Ru
 			}
 			spec.Tasks = append(spec.Tasks, calls)
 		}
+	case x >= 94 && x < 97 && len(classes.long) > 1:
+		// several tasks each inside a LONG call at the same time (per-token scratch
+		// buffers, worker pools and finalizer-managed memory are only used by these)
+		shape = "two_long"
+		if nt < 2 {
+			nt = 2
+		}
+		if nt > 3 {
+			nt = 3
+		}
+		a := api()
+		for t := 0; t < nt; t++ {
+			n := 1 + r.Intn(2)
+			var calls []simrt.Call
+			for k := 0; k < n; k++ {
+				calls = append(calls, mk(a, pick(r, classes.long, classes.all)))
+			}
+			spec.Tasks = append(spec.Tasks, calls)
+		}
 	case x < 4:
 		// one input asked very many times by one task while others do ordinary work
 		shape = "hammer"
@@ -262,5 +281,11 @@ func genRun(c *common.Corpus, seed uint64, cold bool, syncHeavy bool) (*simrt.Ru
 	p.ClockJumpP = []float64{0, 0.02, 0.1}[r.Intn(3)]
 	p.TimerP = []float64{0, 0.001, 0.01, 0.05}[r.Intn(4)]
 	p.GCP = []float64{0, 0, 0, 0.002, 0.01, 0.05}[r.Intn(6)]
+	if shape == "two_long" || shape == "long_vs_short" {
+		p.GCP = []float64{0.002, 0.01, 0.05}[r.Intn(3)]
+		if p.Kind == "seq" || p.Kind == "sync" {
+			p.Kind, p.P = "walk", 0.01
+		}
+	}
 	return spec, shape
 }
